@@ -9,5 +9,6 @@ let () =
   | _ :: "c16" :: file :: _ -> C16.run file
   | _ :: "c19" :: file :: _ -> C19.run file
   | _ :: "c17" :: file :: _ -> C17.run file
+  | _ :: "c03" :: file :: _ -> C03.run file
   | _ :: ("c06" | "c10" | "c13" | "c18" as m) :: file :: _ -> Pg.run m file
   | _ -> prerr_endline "usage: oracle <property> <trace>"; exit 2
